@@ -357,7 +357,7 @@ static void op_polyagg(const McArg *a) {
     int kind = (int)a[0].i, res = (int)a[1].i;
     uint32_t flags = (uint32_t)a[2].i;
     LatLng *v = malloc(8 * sizeof(LatLng)), *hv = malloc(8 * sizeof(LatLng));
-    GeoLoop *holes = malloc(2 * sizeof(GeoLoop));
+    GeoLoop *holes = malloc(48 * sizeof(GeoLoop));
     GeoPolygon gp;
     memset(&gp, 0, sizeof gp);
     double u = poly_edge(res) * 2;
@@ -395,6 +395,25 @@ static void op_polyagg(const McArg *a) {
         case 13: v[0].lng = -M_PI, v[1].lng = M_PI, v[2].lng = M_PI, v[3].lng = -M_PI; break;  // whole band
         case 14: for (int i = 0; i < 4; i++) v[i].lat *= 100, v[i].lng *= 100; break;          // outside the canonical range
         case 15: gp.geoloop.verts = NULL, gp.geoloop.numVerts = 0; break;
+        case 16: case 17: case 18: {  // 2 / 8 / 40 holes, all identical to the shell (coinciding outlines traced again and again)
+            int n = kind == 16 ? 2 : kind == 17 ? 8 : 40;
+            for (int i = 0; i < 4; i++) hv[i] = sq[3 - i];
+            for (int k = 0; k < n; k++) holes[k].numVerts = 4, holes[k].verts = hv;
+            gp.numHoles = n, gp.holes = holes;
+            break;
+        }
+        case 19: case 20: {  // 8 / 40 identical small holes inside the shell
+            int n = kind == 19 ? 8 : 40;
+            for (int i = 0; i < 4; i++) hv[i] = (LatLng){c.lat + (sq[3 - i].lat - c.lat) * 0.4, c.lng + (sq[3 - i].lng - c.lng) * 0.4};
+            for (int k = 0; k < n; k++) holes[k].numVerts = 4, holes[k].verts = hv;
+            gp.numHoles = n, gp.holes = holes;
+            break;
+        }
+        case 21: {  // 12 holes: the shell itself with the same winding as the shell
+            for (int k = 0; k < 12; k++) holes[k].numVerts = 4, holes[k].verts = v;
+            gp.numHoles = 12, gp.holes = holes;
+            break;
+        }
     }
     int64_t sz = -1;
     int resbad = res < 0 || res > 15, flagbad = flags > 3;
@@ -555,7 +574,7 @@ static void ph_misc(void *u) {
         if (mc_mine(idx)) MC_RUN(OP_INTS, I(DOM_INTS[k]));
     static const int64_t fl[] = {0, 1, 2, 3, 4, 0x10, 0x80000000LL};
     static const int rs[] = {0, 1, 4, 9, 15, -1, 16};
-    for (int kind = 0; kind < 16; kind++)
+    for (int kind = 0; kind < 22; kind++)
         for (int ri = 0; ri < 7; ri++)
             for (int fi = 0; fi < 7; fi++, idx++)
                 if (mc_mine(idx)) MC_RUN(OP_POLYAGG, I(kind), I(rs[ri]), I(fl[fi]));
@@ -610,6 +629,7 @@ static void ph_seq_collect(void *u) {
 }
 int main(int argc, char **argv) {
     mc_init(argc, argv);
+    mc_case_limit = 25;  // no case of this harness needs more than a fraction of a second: a hang is recognised quickly
     dom_idx(mc_thorough ? 1 : 0, &g_un);
     dom_idx(mc_thorough ? 0 : -1, &g_bin);
     if (!mc_thorough) {
